@@ -364,10 +364,17 @@ def lib_encode(obj):
     return buf.getvalue()
 
 
-def lib_decode(t, fmt, data, sentinel=b""):
-    """Decode with the real decoder; returns (block, stream position afterwards)."""
+def lib_decode(t, fmt, data, sentinel=b"", poison=0x5A):
+    """Decode with the real decoder; returns (block, stream position afterwards).  Always runs
+    under a fixed allocator poison so that no observation depends on what fresh memory holds."""
+    from . import env
+
     buf = io.BytesIO(data + sentinel)
-    blk = block_class(t)._build(buf, fmt)
+    if poison is None:
+        blk = block_class(t)._build(buf, fmt)
+    else:
+        with env.poisoned_allocator(poison):
+            blk = block_class(t)._build(buf, fmt)
     return blk, buf.tell()
 
 
